@@ -100,8 +100,8 @@ func (p *c08Prop) Gen(r *Rng, i int, tier string) interface{} {
 	for k := 0; k < n; k++ {
 		s := c08Sub{F: perm[k], QoS: r.Intn(3), RH: 2}
 		if c.SV == 5 {
-			if c.Overlap { // the single merged copy: options agree (see C08_one_copy_when_overlapping)
-				s.NL, s.RAP = nl, rap
+			if c.Overlap { // the single merged copy: Retain-As-Published agrees (see C08_overlapping_copy_retain); No Local need not
+				s.NL, s.RAP = nl != r.Chance(30), rap
 			} else {
 				s.NL, s.RAP = r.Chance(30), r.Bool()
 			}
